@@ -29,7 +29,10 @@ def work(item):
     from orquestra.quantum.operators import _utils as OU
     from orquestra.quantum.operators._openfermion_utils import operator_utils as OP, sparse_tools as SP
 
-    res.fn(OP.hermitian_conjugated, OP.is_hermitian, OU.reverse_qubit_order, SP.get_sparse_operator, SP.expectation, OU.get_expectation_value, OU.get_pauliop_from_matrix, OU.get_pauliop_from_coeffs_and_labels)
+    try:  # evidence only: a renamed private helper must not break the check
+        res.fn(OP.hermitian_conjugated, OP.is_hermitian, OU.reverse_qubit_order, SP.get_sparse_operator, SP.expectation, OU.get_expectation_value, OU.get_pauliop_from_matrix, OU.get_pauliop_from_coeffs_and_labels)
+    except AttributeError:
+        pass
     try:
         if kind in ("conj", "herm", "rev"):
             with _patched():
